@@ -161,6 +161,63 @@ struct Ctx<'a> {
     tensor: Option<Vec<crate::zxeval::Val>>,
 }
 
+/// A damaged copy of an encoded diagram (see the call site).
+fn corrupt_document(t: &str, kind: usize) -> String {
+    if kind == 0 {
+        return t.get(..t.len() / 2).unwrap_or("").to_string();
+    }
+    let mut v: Value = match serde_json::from_str(t) {
+        Ok(v) => v,
+        Err(_) => return String::new(),
+    };
+    match kind {
+        1 => {
+            // the last edge ends at a name that does not exist
+            if let Some(es) = v.get_mut("undir_edges").and_then(|e| e.as_object_mut()) {
+                if let Some((_, e)) = es.iter_mut().last() {
+                    e["tgt"] = json!("no-such-vertex");
+                }
+            }
+        }
+        2 => {
+            // a spider phase that does not parse
+            if let Some(ns) = v.get_mut("node_vertices").and_then(|e| e.as_object_mut()) {
+                if let Some((_, n)) = ns.iter_mut().last() {
+                    n["data"]["value"] = json!("pi/zero");
+                }
+            }
+        }
+        3 => {
+            // the scalar's phase does not parse
+            if let Some(sc) = v.get("scalar").and_then(|s| s.as_str()) {
+                let bad = sc.replacen("\"phase\":\"", "\"phase\":\"zz", 1);
+                v["scalar"] = json!(bad);
+            }
+        }
+        4 => {
+            // a vertex that edges still refer to is gone
+            if let Some(ns) = v.get_mut("node_vertices").and_then(|e| e.as_object_mut()) {
+                if let Some(k) = ns.keys().next().cloned() {
+                    ns.remove(&k);
+                }
+            }
+        }
+        _ => {
+            // a boundary without its index
+            if let Some(ws) = v.get_mut("wire_vertices").and_then(|e| e.as_object_mut()) {
+                if let Some((_, w)) = ws.iter_mut().next() {
+                    if let Some(a) = w.get_mut("annotation").and_then(|a| a.as_object_mut()) {
+                        a.remove("input");
+                        a.remove("output");
+                        a.insert("input".into(), json!("first"));
+                    }
+                }
+            }
+        }
+    }
+    v.to_string()
+}
+
 fn decode_any(text: &str, hash: bool) -> Result<Dg, String> {
     if hash {
         quizx::json::decode_graph::<quizx::hash_graph::Graph>(text).map(|g| Dg::of(&g)).map_err(|e| e.to_string())
@@ -174,7 +231,12 @@ impl C13 {
         let mut dec = exec;
         let g: G = sc.g.build();
         let orig = sc.g.to_dg();
-        let evaluable = orig.boundary().len() <= 4
+        let through = sc.g.inputs.iter().any(|v| sc.g.outputs.contains(v));
+        if through {
+            out.probe("has.boundary_that_is_input_and_output");
+        }
+        let evaluable = !through
+            && orig.boundary().len() <= 4
             && sc.g.verts.iter().all(|v| v.2 <= 256)
             && orig.verts.iter().all(|v| !matches!(v.ty, VT::Other(_)))
             && orig.cost_classes().map(|c| c <= 12).unwrap_or(false);
@@ -188,14 +250,19 @@ impl C13 {
                 if !sc.more.is_empty() {
                     ctx.out.probe("codec_call_history");
                     for (spec, _) in &sc.more {
+                        let kind = dec.choose("hist.corrupt", 6);
                         let core = Core::new(dec, 1);
                         let other: G = spec.build();
                         let hb = sc.decode_hash_backend;
                         let (_res, core) = with_sim(core, move || {
                             let t = quizx::json::encode_graph(&other).unwrap_or_default();
                             let _ = decode_any(&t, hb);
-                            let cut = t.len() / 2;
-                            let _ = decode_any(t.get(..cut).unwrap_or(""), hb);
+                            // a decode that fails: torn text (a syntax error, before any table is
+                            // built), or a document that is valid JSON but breaks half-way through
+                            // the decoder - a dangling edge end, a phase or scalar that does not
+                            // parse, a vertex that edges still refer to removed
+                            let bad = corrupt_document(&t, kind);
+                            let _ = decode_any(&bad, hb);
                         });
                         dec = core.dec;
                         ctx.out.steps += 1;
